@@ -64,6 +64,19 @@ func localType2() reflect.Type {
 // concrete type used when a function must produce a value of an interface type
 var ifaceImpl = map[string]string{"I1": "T1", "I2": "T3", "E": "PE", "I12": "T2"}
 
+// another implementing type per interface (later calls of a redefined function use it)
+var ifaceImplAlt = map[string]string{"I1": "T2", "I2": "T2", "E": "PE", "I12": "T2"}
+
+// MkValueAs builds a value of concrete type cname carrying token id, as an interface{}.
+func MkValueAs(cname string, id int) interface{} {
+	if cname == "PE" {
+		return &EV{ID: id}
+	}
+	v := reflect.New(TypeOf(cname)).Elem()
+	v.Field(0).SetInt(int64(id))
+	return v.Interface()
+}
+
 var nameByType = func() map[reflect.Type]string {
 	m := map[reflect.Type]string{}
 	for k, v := range typeByName {
